@@ -280,6 +280,7 @@ func (r *connRig) close() {
 
 type regRig struct {
 	tr      *tracer
+	s       *sched.Sched
 	ctrl    *session.ClientRegistry
 	tun     *session.TunnelRegistry
 	mu      sync.Mutex
@@ -288,8 +289,8 @@ type regRig struct {
 	seq     int
 }
 
-func newRegRig(b *behaviour, tr *tracer) *regRig {
-	r := &regRig{tr: tr, streams: map[string]*fakeStream{}, base: time.Now().Add(-time.Hour)}
+func newRegRig(b *behaviour, s *sched.Sched, tr *tracer) *regRig {
+	r := &regRig{tr: tr, s: s, streams: map[string]*fakeStream{}, base: time.Now().Add(-time.Hour)}
 	if b.Cfg.K == "ctrlcap" {
 		r.ctrl = session.NewClientRegistry(&session.ClientRegistryConfig{MaxConnections: b.Cfg.Lim})
 	} else {
@@ -298,10 +299,13 @@ func newRegRig(b *behaviour, tr *tracer) *regRig {
 	return r
 }
 
-// the registry closes the stream of a connection it evicts or removes, inside its lock section
+// ClientRegistry closes the stream of a connection it evicts or removes: the one call into an object
+// of ours that Register makes inside its lock section, hence a seam (a racing request evicting the
+// oldest connection parks here, holding the registry lock; free-running: a random delay).
+// Occupancy of the control registry is judged on Count() readings only (Obs): the instant at which
+// the evicted connection leaves the map is not observable from here.
 func (r *regRig) onClose(id string) {
-	_, racer := racerOf(id)
-	r.tr.add(fw.Event{"ev": "Release", "p": id, "old": !racer})
+	r.s.Gate(closeGate, nil)
 }
 func (r *regRig) register(id string) error {
 	r.mu.Lock()
@@ -341,7 +345,7 @@ func (r *regRig) request(p int) outcome {
 }
 func (r *regRig) release(p int) {
 	if r.ctrl != nil {
-		r.ctrl.Remove(pname(p)) // closes the stream inside the lock section: Release is logged there
+		r.ctrl.Remove(pname(p))
 		return
 	}
 	r.tr.add(fw.Event{"ev": "Release", "p": pname(p), "old": false})
@@ -402,11 +406,13 @@ func (r *regRig) evictedGone() string {
 // The verifhook handler is process-global: behaviours of kind maplimit run one at a time (hookMu)
 // and the handler routes to the rig of the running one.
 var (
-	hookMu     sync.Mutex
-	curMapRig  atomic.Pointer[mapRig]
-	hookSeen   atomic.Int64 // times the hook point was reached (0 = the point is absent from this tree)
-	hookPoint  = "mapping.quota.checked"
-	prepareGat = "adapter.Prepare"
+	hookMu         sync.Mutex
+	curMapRig      atomic.Pointer[mapRig]
+	leaksConfirmed atomic.Int32
+	hookSeen       atomic.Int64 // times the hook point was reached (0 = the point is absent from this tree)
+	closeGate      = "stream.Close"
+	hookPoint      = "mapping.quota.checked"
+	prepareGat     = "adapter.Prepare"
 )
 
 type fconn struct {
@@ -675,7 +681,19 @@ func (r *mapRig) probe() (int, int, bool) {
 	r.endAll()
 	want := r.b.Cfg.Lim - len(r.holders)
 	var held []*fconn
-	deadline := time.Now().Add(5 * time.Second)
+	// a slot may come back a little after the connection ended (deferred decrement, tunnel close callback):
+	// wait generously. Once a few leaks were confirmed with the full margin the verdict cannot change any
+	// more, and waiting 3 s for every further leaking behaviour would only burn the time budget.
+	wait := 3 * time.Second
+	if leaksConfirmed.Load() >= 3 {
+		wait = 30 * time.Millisecond
+	}
+	defer func() {
+		if len(held) < want && wait > time.Second {
+			leaksConfirmed.Add(1)
+		}
+	}()
+	deadline := time.Now().Add(wait)
 	for len(held) < want && time.Now().Before(deadline) {
 		c, ok := r.feedHeld(time.Second)
 		if ok {
@@ -941,7 +959,7 @@ func newRig(b *behaviour, s *sched.Sched, tr *tracer, free bool, jitter func()) 
 	case "conncap":
 		return newConnRig(b, s)
 	case "ctrlcap", "tuncap":
-		return newRegRig(b, tr)
+		return newRegRig(b, s, tr)
 	case "maplimit":
 		return newMapRig(b, s, tr, free, jitter)
 	case "codequota", "mapquota":
@@ -965,7 +983,7 @@ func run(r rig, tr *tracer, b *behaviour, p int) outcome {
 	after := r.snap(p)
 	switch {
 	case out.Admitted:
-		if b.Cfg.K != "maplimit" {
+		if b.Cfg.K != "maplimit" && b.Cfg.K != "ctrlcap" {
 			tr.add(fw.Event{"ev": "Admit", "p": pname(p)})
 		}
 	case out.Refused:
@@ -1076,6 +1094,8 @@ func gateBefore(kind, a string) string {
 	switch kind {
 	case "conncap":
 		return "conn.id"
+	case "ctrlcap":
+		return closeGate
 	case "maplimit":
 		if a == "Release" || a == "GoLive" || a == "Detach" {
 			return prepareGat
@@ -1140,13 +1160,24 @@ func driveSched(env *fw.Env, b *behaviour) *fw.Trace {
 		return &fw.Trace{Status: fw.DriverError, Note: "preload: " + err.Error()}
 	}
 	tr.add(fw.Event{"ev": "Cfg", "kind": b.label(), "tag": b.tag(), "n": b.Cfg.N, "lim": b.Cfg.Lim, "pre": preOf(b), "mode": "sched"})
+	started := map[int]bool{}
+	inLockSection := func() bool { // a request is parked inside Stream.Close: on the real code it holds the registry lock
+		for p := range started {
+			if st, at := s.State(pname(p)); st == sched.Parked && at.Point == closeGate {
+				return true
+			}
+		}
+		return false
+	}
 	obs := func() {
+		if inLockSection() {
+			return // reading the registry would wait for that lock
+		}
 		if n := r.occ(); n >= 0 {
 			tr.add(fw.Event{"ev": "Obs", "n": n})
 		}
 	}
 	obs()
-	started := map[int]bool{}
 	results := map[int]outcome{}
 	var bad string
 	finish := func(p int) { // the call of p has returned
@@ -1246,7 +1277,19 @@ func driveSched(env *fw.Env, b *behaviour) *fw.Trace {
 				if kind == "conncap" {
 					tr.add(fw.Event{"ev": "Release", "p": name, "old": false})
 				}
-				r.release(p)
+				if inLockSection() {
+					// the model (variant without the lock) removes a connection while another request is inside
+					// Register: on the real code Remove waits for the registry lock
+					done := make(chan struct{})
+					go func() { r.release(p); close(done) }()
+					select {
+					case <-done:
+					case <-time.After(s.Watchdog):
+						return unreal("step %d: release of %s blocked (registry lock)", i, name)
+					}
+				} else {
+					r.release(p)
+				}
 			}
 		default: // a later step of a request parked at a gate
 			if !started[p] {
@@ -1438,14 +1481,15 @@ func driveFree(env *fw.Env, b *behaviour) *fw.Trace {
 // ---- wiring ---------------------------------------------------------------------------------
 
 const (
-	allKinds   = `{"conncap", "ctrlcap", "tuncap", "maplimit", "codequota", "mapquota"}`
-	racyKinds  = `{"conncap", "maplimit", "codequota", "mapquota"}`
-	fixedAll   = `{"conncap", "maplimit", "maplive", "codequota", "mapquota"}`
-	quotaKinds = `{"codequota", "mapquota"}`
+	allKinds    = `{"conncap", "ctrlcap", "tuncap", "maplimit", "codequota", "mapquota"}`
+	racyKinds   = `{"conncap", "maplimit", "codequota", "mapquota"}`
+	legacyKinds = `{"conncap", "ctrlcap", "maplimit", "codequota", "mapquota"}`
+	fixedAll    = `{"conncap", "maplimit", "maplive", "codequota", "mapquota"}`
+	quotaKinds  = `{"codequota", "mapquota"}`
 )
 
 func job(name string, c map[string]string) fw.TLCJob {
-	d := map[string]string{"KINDS": allKinds, "NS": "{2, 3, 4}", "LIMS": "{0, 1, 2}", "NODES": "{1}", "KEYS": `{"owner"}`, "FIXED": fixedAll,
+	d := map[string]string{"KINDS": allKinds, "NS": "{2, 3, 4}", "LIMS": "{0, 1, 2}", "NODES": "{1}", "KEYS": `{"owner"}`, "VARIANTS": "{}", "FIXED": fixedAll,
 		"REL": "TRUE", "EMIT": "FALSE", "EMITALL": "FALSE", "VIEW": "VIEW view", "INVS": ""}
 	for k, v := range c {
 		d[k] = v
@@ -1493,9 +1537,11 @@ func main() {
 		GenJobs: func(env *fw.Env) []fw.TLCJob {
 			jobs := []fw.TLCJob{
 				job("gen", map[string]string{"NODES": "{1, 2}", "EMIT": "TRUE"}),
-				job("legacy", map[string]string{"KINDS": racyKinds, "FIXED": "{}", "EMIT": "TRUE"}),
+				job("legacy", map[string]string{"KINDS": legacyKinds, "FIXED": "{}", "VARIANTS": `{"ctrlsplit"}`, "EMIT": "TRUE"}),
 				job("all:n2", map[string]string{"NS": "{2}", "NODES": "{1, 2}", "EMITALL": "TRUE", "VIEW": "", "INVS": "EmitMaximal"}),
-				job("all-legacy:n2", map[string]string{"KINDS": racyKinds, "NS": "{2}", "FIXED": "{}", "EMITALL": "TRUE", "VIEW": "", "INVS": "EmitMaximal"}),
+				job("legacy-all:n2", map[string]string{"KINDS": racyKinds, "NS": "{2}", "FIXED": "{}", "EMITALL": "TRUE", "VIEW": "", "INVS": "EmitMaximal"}),
+				// Register without the registry lock between evicting and inserting (needs a third request)
+				job("legacy-all:ctrlsplit", map[string]string{"KINDS": `{"ctrlcap"}`, "NS": "{3, 4}", "LIMS": "{1, 2}", "REL": "FALSE", "VARIANTS": `{"ctrlsplit"}`, "EMITALL": "TRUE", "VIEW": "", "INVS": "EmitMaximal"}),
 			}
 			if env.Tier == "thorough" {
 				// the model of "mutex keyed on the issuer": on the right tree the second activation blocks (unrealisable)
@@ -1503,7 +1549,7 @@ func main() {
 				jobs = append(jobs,
 					job("all:n3", map[string]string{"NS": "{3}", "NODES": "{1, 2}", "EMITALL": "TRUE", "VIEW": "", "INVS": "EmitMaximal"}),
 					// (as-is quota behaviours block on the mutex of the repaired tree and are covered by "legacy"; here only the two caps)
-					job("all-legacy:n3", map[string]string{"KINDS": `{"conncap", "maplimit"}`, "NS": "{3}", "LIMS": "{1, 2}", "FIXED": "{}", "EMITALL": "TRUE", "VIEW": "", "INVS": "EmitMaximal"}))
+					job("legacy-all:n3", map[string]string{"KINDS": `{"conncap", "maplimit"}`, "NS": "{3}", "LIMS": "{1, 2}", "FIXED": "{}", "EMITALL": "TRUE", "VIEW": "", "INVS": "EmitMaximal"}))
 			}
 			return jobs
 		},
@@ -1537,7 +1583,7 @@ func main() {
 			return []json.RawMessage{fw.MustJSON(b)}
 		},
 		MaxBehSrc: func(env *fw.Env, src string) int {
-			if strings.HasPrefix(src, "all") && strings.HasSuffix(src, ":n2") {
+			if strings.Contains(src, "all") && (strings.HasSuffix(src, ":n2") || strings.HasSuffix(src, ":ctrlsplit")) {
 				return 0
 			}
 			if env.Tier == "quick" {
@@ -1602,7 +1648,7 @@ func main() {
 			}
 			fmt.Printf("[c17]   hook point %s reached %d times\n", hookPoint, hookSeen.Load())
 			if len(genN) > 0 { // not a replay: the as-is model must still exhibit each race (vacuity guard)
-				for _, k := range []string{"conncap", "maplimit", "maplive", "codequota", "mapquota", "mapquota:distinctTargets"} {
+				for _, k := range []string{"conncap", "ctrlcap", "maplimit", "maplive", "codequota", "mapquota", "mapquota:distinctTargets"} {
 					if genOv["legacy:"+k] == 0 {
 						return fmt.Errorf("the as-is model no longer exhibits an overshoot for %s (%d behaviours generated)", k, genN["legacy:"+k])
 					}
